@@ -177,6 +177,7 @@ func init() {
 			"sites executed during package initialisation run before the explorer exists and are listed, not explored",
 		},
 		BudgetQuick: 280 * time.Second, BudgetThorough: 1500 * time.Second,
+		CaseTimeout: 900 * time.Second,
 		Prepare: func(p *Parent) error {
 			repl, sites, err := RewriteMapRanges(p.Env.Repo, filepath.Join(p.Shared, "maprewrite"))
 			if err != nil {
